@@ -344,62 +344,11 @@ theorem translateTok_ref (r : Spec.CRef) (hw : r.WF) (dc dr : Int) :
 
 /-! ### insert: one reference token -/
 
-/-- `adjustment_insert_coordinate` on a part, as a total function (no overflow) -/
-def insRef (root off : Nat) (x : Ref) : Ref :=
-  ⟨if x.num ≥ root && off ≠ 0 then x.num + off else x.num, x.lock⟩
-
-theorem insertPart_ok (x : Ref) (root off : Nat) (h : x.num + off ≤ u32Max) :
-    insertPart (toPart x) root off = .ok (toPart (insRef root off x)) := by
-  have h3 : ¬ (x.num + off > u32Max) := by omega
-  by_cases h1 : root ≤ x.num <;> by_cases h2 : off = 0 <;>
-    simp [insertPart, insertCoordinate, toPart, insRef, h1, h2, h3]
-  all_goals omega
-
-theorem insRef_ge (root off : Nat) (x : Ref) : x.num ≤ (insRef root off x).num := by
-  simp only [insRef]; split <;> omega
-
-theorem insertCoord_text (k : Spec.Corner) (hg : k.InGrid) (hne : k.col.isSome ∨ k.row.isSome)
-    (rc oc rr orr : Nat)
-    (hoc : ∀ x, k.col = some x → x.num + oc ≤ u32Max)
-    (hor : ∀ x, k.row = some x → x.num + orr ≤ u32Max) :
-    insertCoord rc oc rr orr k.text
-      = .ok (Spec.Corner.text ⟨k.col.map (insRef rc oc), k.row.map (insRef rr orr)⟩) := by
-  unfold insertCoord
-  rw [parseCorner_text k hg hne]
-  obtain ⟨c, r⟩ := k
-  have hren := fun (k' : Spec.Corner) h => renderCorner_text k' h
-  cases c with
-  | none =>
-    cases r with
-    | none => simp at hne
-    | some y =>
-      have := hren ⟨none, some (insRef rr orr y)⟩ (by simp)
-      simp only [toCorner, Option.map] at this
-      simp [toCorner, optRes, insertPart_ok y rr orr (hor y rfl), this]
-  | some x =>
-    have hx1 : 1 ≤ (insRef rc oc x).num := Nat.le_trans (hg.1 x rfl).1 (insRef_ge rc oc x)
-    cases r with
-    | none =>
-      have := hren ⟨some (insRef rc oc x), none⟩ (by intro z hz; injection hz with hz; subst hz; exact hx1)
-      simp only [toCorner, Option.map] at this
-      simp [toCorner, optRes, insertPart_ok x rc oc (hoc x rfl), this]
-    | some y =>
-      have := hren ⟨some (insRef rc oc x), some (insRef rr orr y)⟩
-        (by intro z hz; injection hz with hz; subst hz; exact hx1)
-      simp only [toCorner, Option.map] at this
-      simp [toCorner, optRes, insertPart_ok x rc oc (hoc x rfl), insertPart_ok y rr orr (hor y rfl), this]
-
-def insCornerG (rc oc rr orr : Nat) (k : Spec.Corner) : Spec.Corner :=
-  ⟨k.col.map (insRef rc oc), k.row.map (insRef rr orr)⟩
-
-def mapArea (f : Spec.Corner → Spec.Corner) : Spec.Area → Spec.Area
-  | .one k => .one (f k)
-  | .two a b => .two (f a) (f b)
-
-/-- all parts stay representable as `u32` -/
-def NoOverflow (a : Spec.Area) (oc orr : Nat) : Prop :=
-  ∀ k, (k = Spec.startOf a ∨ k = Spec.endOf a) →
-    (∀ x, k.col = some x → x.num + oc ≤ u32Max) ∧ (∀ x, k.row = some x → x.num + orr ≤ u32Max)
+/-- the `(root_col, offset_col, root_row, offset_row)` arguments an edit on one axis produces -/
+def axisArgs (ax : Spec.Axis) (at_ n : Nat) : Nat × Nat × Nat × Nat :=
+  match ax with
+  | .col => (at_, n, 0, 0)
+  | .row => (0, 0, at_, n)
 
 theorem concerns_spec (r : Spec.CRef) (hq : ∀ q, r.sheet = some q → q.WF) (ws selfWs : List Char)
     (hws : ws ≠ []) :
@@ -417,14 +366,155 @@ theorem concerns_spec (r : Spec.CRef) (hq : ∀ q, r.sheet = some q → q.WF) (w
     have hne : q.name ≠ [] := (hq q rfl).1
     by_cases h : q.name = ws <;> simp [concerns, qualName, Spec.concernsRef, hne, h]
 
-/-- `adjustment_insert_formula_coordinate` on one reference token: the parts at or behind the
-    insertion point move by the number of inserted lines whatever their `$` flags, the qualifier
-    is kept as written, references of other sheets are left alone. -/
-theorem insertTok_ref (r : Spec.CRef) (hw : r.WF) (rc oc rr orr : Nat) (ws selfWs : List Char)
-    (hws : ws ≠ []) (hno : NoOverflow r.area oc orr) :
-    insertTok rc oc rr orr ws selfWs false (refTok r)
-      = .ok (if Spec.concernsRef r selfWs ws
-             then refTok { r with area := mapArea (insCornerG rc oc rr orr) r.area } else refTok r) := by
+/-- what the Spec makes of one part on the edited axis: moved behind the insertion point; beyond
+    `max` it is cut off at `max` when it ends a range and gone otherwise -/
+def insPartS (x : Ref) (at_ n max : Nat) (isEnd : Bool) : Option Ref :=
+  if Spec.insNum x.num at_ n ≤ max then some ⟨Spec.insNum x.num at_ n, x.lock⟩
+  else if isEnd then some ⟨max, x.lock⟩ else none
+
+/-- `insert_part` on an in-grid part is `insPartS`, whatever the `$` flag, for every count `n ≠ 0` -/
+theorem insertPart_spec (x : Ref) (at_ n max : Nat) (isEnd : Bool) (hn : n ≠ 0) (hx : x.num ≤ max) :
+    insertPart (toPart x) at_ n max isEnd = (insPartS x at_ n max isEnd).map toPart := by
+  by_cases h1 : x.num < at_
+  · have h1' : ¬ at_ ≤ x.num := by omega
+    simp [insertPart, insPartS, toPart, Spec.insNum, h1, h1', hx]
+  · have h1' : at_ ≤ x.num := by omega
+    by_cases h2 : x.num + n ≤ max
+    · simp [insertPart, insPartS, toPart, Spec.insNum, h1, h1', hn, h2]
+    · cases isEnd <;> simp [insertPart, insPartS, toPart, Spec.insNum, h1, h1', hn, h2]
+
+/-- the axis that is not edited is called with root 0, offset 0 -/
+theorem insertPart_unused (p : Part) (max : Nat) (e : Bool) : insertPart p 0 0 max e = some p := by
+  simp [insertPart]
+
+theorem insNum_ge (x at_ n : Nat) : x ≤ Spec.insNum x at_ n := by
+  simp only [Spec.insNum]; split <;> omega
+
+theorem insNum_mono (x y at_ n : Nat) (h : x ≤ y) : Spec.insNum x at_ n ≤ Spec.insNum y at_ n := by
+  simp only [Spec.insNum]; split <;> split <;> omega
+
+theorem insPartS_pos (x x' : Ref) (at_ n max : Nat) (e : Bool) (h : insPartS x at_ n max e = some x')
+    (hx : 1 ≤ x.num) (hm : 1 ≤ max) : 1 ≤ x'.num := by
+  have := insNum_ge x.num at_ n
+  unfold insPartS at h
+  split at h
+  · injection h with h; subst h; simp; omega
+  · split at h
+    · injection h with h; subst h; exact hm
+    · cases h
+
+/-- one corner under an insert on axis `ax` -/
+def insCornerS (k : Spec.Corner) (ax : Spec.Axis) (at_ n : Nat) (isEnd : Bool) : Option Spec.Corner :=
+  match ax with
+  | .col =>
+    match k.col with
+    | none => some k
+    | some x => (insPartS x at_ n Spec.maxCol isEnd).map (fun x' => ⟨some x', k.row⟩)
+  | .row =>
+    match k.row with
+    | none => some k
+    | some y => (insPartS y at_ n Spec.maxRow isEnd).map (fun y' => ⟨k.col, some y'⟩)
+
+theorem maxCol_eq : maxCol = Spec.maxCol := rfl
+theorem maxRow_eq : maxRow = Spec.maxRow := rfl
+
+theorem insertCoord_text (k : Spec.Corner) (hg : k.InGrid) (hne : k.col.isSome ∨ k.row.isSome)
+    (ax : Spec.Axis) (at_ n : Nat) (hn : n ≠ 0) (isEnd : Bool) :
+    insertCoord (axisArgs ax at_ n).1 (axisArgs ax at_ n).2.1 (axisArgs ax at_ n).2.2.1
+        (axisArgs ax at_ n).2.2.2 isEnd k.text
+      = .ok ((insCornerS k ax at_ n isEnd).map (·.text)) := by
+  unfold insertCoord
+  rw [parseCorner_text k hg hne]
+  obtain ⟨c, r⟩ := k
+  have hren := fun (k' : Spec.Corner) h => renderCorner_text k' h
+  cases ax with
+  | col =>
+    cases c with
+    | none =>
+      cases r with
+      | none => simp at hne
+      | some y =>
+        have := hren ⟨none, some y⟩ (by simp)
+        simp only [toCorner, Option.map] at this
+        simp [axisArgs, toCorner, insertPart_unused, insCornerS, Option.join, this]
+    | some x =>
+      have hx := hg.1 x rfl
+      have hp := insertPart_spec x at_ n Spec.maxCol isEnd hn hx.2
+      cases hs : insPartS x at_ n Spec.maxCol isEnd with
+      | none =>
+        rw [hs] at hp
+        cases r <;> simp [axisArgs, toCorner, maxCol_eq, hp, insCornerS, hs]
+      | some x' =>
+        rw [hs] at hp
+        have hx' := insPartS_pos x x' at_ n _ isEnd hs hx.1 (by simp [Spec.maxCol])
+        cases r with
+        | none =>
+          have := hren ⟨some x', none⟩ (by intro z hz; injection hz with hz; subst hz; exact hx')
+          simp only [toCorner, Option.map] at this
+          simp [axisArgs, toCorner, maxCol_eq, hp, insCornerS, hs, Option.join, this]
+        | some y =>
+          have := hren ⟨some x', some y⟩ (by intro z hz; injection hz with hz; subst hz; exact hx')
+          simp only [toCorner, Option.map] at this
+          simp [axisArgs, toCorner, maxCol_eq, hp, insCornerS, hs, insertPart_unused, Option.join, this]
+  | row =>
+    cases r with
+    | none =>
+      cases c with
+      | none => simp at hne
+      | some x =>
+        have := hren ⟨some x, none⟩ (by intro z hz; injection hz with hz; subst hz; exact (hg.1 x rfl).1)
+        simp only [toCorner, Option.map] at this
+        simp [axisArgs, toCorner, insertPart_unused, insCornerS, Option.join, this]
+    | some y =>
+      have hy := hg.2 y rfl
+      have hp := insertPart_spec y at_ n Spec.maxRow isEnd hn hy.2
+      cases hs : insPartS y at_ n Spec.maxRow isEnd with
+      | none =>
+        rw [hs] at hp
+        cases c <;> simp [axisArgs, toCorner, maxRow_eq, hp, insCornerS, hs, insertPart_unused]
+      | some y' =>
+        rw [hs] at hp
+        cases c with
+        | none =>
+          have := hren ⟨none, some y'⟩ (by simp)
+          simp only [toCorner, Option.map] at this
+          simp [axisArgs, toCorner, maxRow_eq, hp, insCornerS, hs, Option.join, this]
+        | some x =>
+          have := hren ⟨some x, some y'⟩ (by intro z hz; injection hz with hz; subst hz; exact (hg.1 x rfl).1)
+          simp only [toCorner, Option.map] at this
+          simp [axisArgs, toCorner, maxRow_eq, hp, insCornerS, hs, insertPart_unused, Option.join, this]
+
+/-- an end corner is never lost: it is cut off at the edge of the grid -/
+theorem insCornerS_end (k : Spec.Corner) (ax : Spec.Axis) (at_ n : Nat) :
+    ∃ k', insCornerS k ax at_ n true = some k' := by
+  obtain ⟨c, r⟩ := k
+  cases ax with
+  | col =>
+    cases c with
+    | none => exact ⟨_, rfl⟩
+    | some x => simp only [insCornerS, insPartS]; split <;> simp
+  | row =>
+    cases r with
+    | none => exact ⟨_, rfl⟩
+    | some y => simp only [insCornerS, insPartS]; split <;> simp
+
+/-- the area a reference designates after the insert, corner by corner as the code computes it:
+    the start corner (or the single cell) pushed off the grid = nothing left; the end corner is
+    cut off at the edge -/
+def insAreaM (a : Spec.Area) (ax : Spec.Axis) (at_ n : Nat) : Option Spec.Area :=
+  match a with
+  | .one k => (insCornerS k ax at_ n false).map .one
+  | .two k1 k2 =>
+    match insCornerS k1 ax at_ n false, insCornerS k2 ax at_ n true with
+    | some a, some b => some (.two a b)
+    | _, _ => none
+
+/-- `adjustment_insert_formula_coordinate` on one reference token, corner by corner. -/
+theorem insertTok_ref_corners (r : Spec.CRef) (hw : r.WF) (ax : Spec.Axis) (at_ n : Nat) (hn : n ≠ 0)
+    (ws selfWs : List Char) (hws : ws ≠ []) :
+    insertTok (axisArgs ax at_ n).1 (axisArgs ax at_ n).2.1 (axisArgs ax at_ n).2.2.1
+        (axisArgs ax at_ n).2.2.2 ws selfWs false (refTok r)
+      = .ok (if Spec.concernsRef r selfWs ws then tokOfRef r (insAreaM r.area ax at_ n) else refTok r) := by
   have hsq := splitSheetQualifier_text r hw.2
   have hsc := splitColon_area r.area
   unfold insertTok
@@ -439,55 +529,32 @@ theorem insertTok_ref (r : Spec.CRef) (hw : r.WF) (rc oc rr orr : Nat) (ws selfW
     | one k =>
       have hwa : (Spec.Area.one k).WF := by have := hw.1; rwa [ha] at this
       obtain ⟨hg, hne⟩ := area_nonempty_one k hwa
-      have hk := hno k (Or.inl (by rw [ha]; rfl))
-      simp only [cornerTexts, mapRes, insertCoord_text k hg hne rc oc rr orr hk.1 hk.2, joinColon]
-      simp only [refTok, mapArea, insCornerG]
-      first
-        | rfl
-        | (congr 2; rw [← qual_text_eq])
+      simp only [cornerTexts, insertList, insertCoord_text k hg hne ax at_ n hn false]
+      cases hk : insCornerS k ax at_ n false with
+      | none => simp [insAreaM, hk, tokOfRef, refErrTok, refErrorTok, refTok]
+      | some k' =>
+        simp only [Option.map, insAreaM, hk, tokOfRef, refTok, joinColon]
+        first
+          | rfl
+          | (congr 2; rw [← qual_text_eq])
     | two a b =>
       have hwa : (Spec.Area.two a b).WF := by have := hw.1; rwa [ha] at this
       obtain ⟨hga, hgb, hna, hnb⟩ := area_nonempty_two a b hwa
-      have hka := hno a (Or.inl (by rw [ha]; rfl))
-      have hkb := hno b (Or.inr (by rw [ha]; rfl))
-      simp only [cornerTexts, mapRes, insertCoord_text a hga hna rc oc rr orr hka.1 hka.2,
-        insertCoord_text b hgb hnb rc oc rr orr hkb.1 hkb.2, joinColon]
-      simp only [refTok, mapArea, insCornerG]
-      first
-        | rfl
-        | (congr 2; rw [← qual_text_eq]; simp [Spec.Area.text])
+      simp only [cornerTexts, insertList, insertCoord_text a hga hna ax at_ n hn false,
+        insertCoord_text b hgb hnb ax at_ n hn true]
+      cases hka : insCornerS a ax at_ n false with
+      | none => simp [insAreaM, hka, tokOfRef, refErrTok, refErrorTok, refTok]
+      | some a' =>
+        obtain ⟨b', hkb⟩ := insCornerS_end b ax at_ n
+        simp only [Option.map, insAreaM, hka, hkb, tokOfRef, refTok, joinColon]
+        first
+          | rfl
+          | (congr 2; rw [← qual_text_eq]; simp [Spec.Area.text])
 
-/-- the `(root_col, offset_col, root_row, offset_row)` arguments an edit on one axis produces -/
-def axisArgs (ax : Spec.Axis) (at_ n : Nat) : Nat × Nat × Nat × Nat :=
-  match ax with
-  | .col => (at_, n, 0, 0)
-  | .row => (0, 0, at_, n)
-
-theorem insRef_insNum (at_ n : Nat) (x : Ref) : insRef at_ n x = ⟨Spec.insNum x.num at_ n, x.lock⟩ := by
-  by_cases h1 : at_ ≤ x.num <;> by_cases h2 : n = 0 <;> simp [insRef, Spec.insNum, h1, h2]
-
-theorem insNum_n0 (x at_ : Nat) : Spec.insNum x at_ 0 = x := by
-  simp [Spec.insNum]
-
-theorem insRef_zero (root : Nat) (x : Ref) : insRef root 0 x = x := by
-  simp [insRef]
-
-theorem map_insRef_zero (root : Nat) (p : Option Ref) : p.map (insRef root 0) = p := by
-  cases p <;> simp [insRef_zero]
-
-/-- nothing is pushed off the grid by the insert -/
-def FitsInsert (a : Spec.Area) (ax : Spec.Axis) (at_ n : Nat) : Prop :=
-  ∀ k, (k = Spec.startOf a ∨ k = Spec.endOf a) →
-    match ax with
-    | .col => ∀ x, k.col = some x → Spec.insNum x.num at_ n ≤ Spec.maxCol
-    | .row => ∀ x, k.row = some x → Spec.insNum x.num at_ n ≤ Spec.maxRow
-
-/-- when nothing is pushed off the grid, the Spec's insert is the part-wise shift -/
-theorem insArea_fits (a : Spec.Area) (hw : a.WF) (ax : Spec.Axis) (at_ n : Nat)
-    (hf : FitsInsert a ax at_ n) :
-    Spec.insArea a ax at_ n
-      = some (mapArea (insCornerG (axisArgs ax at_ n).1 (axisArgs ax at_ n).2.1
-                (axisArgs ax at_ n).2.2.1 (axisArgs ax at_ n).2.2.2) a) := by
+/-- for a well-formed area (start ≤ end, inside the grid) the corner-wise result is the Spec's
+    `insArea`: `none` exactly when the start is pushed off the grid, the end cut off at the edge -/
+theorem insAreaM_spec (a : Spec.Area) (hw : a.WF) (ax : Spec.Axis) (at_ n : Nat) :
+    insAreaM a ax at_ n = Spec.insArea a ax at_ n := by
   cases a with
   | one k =>
     obtain ⟨c, r⟩ := k
@@ -498,61 +565,83 @@ theorem insArea_fits (a : Spec.Area) (hw : a.WF) (ax : Spec.Axis) (at_ n : Nat)
       cases r with
       | none => simp at hr
       | some y =>
-        have hk := hf ⟨some x, some y⟩ (Or.inl rfl)
         cases ax with
         | col =>
-          have := hk x rfl
-          have h' : ¬ (Spec.insNum x.num at_ n > Spec.maxCol) := by omega
-          simp [Spec.insArea, Spec.startOf, Spec.endOf, Spec.insAxis, h', Spec.rebuild, mapArea,
-            insCornerG, axisArgs, insRef_insNum, insNum_n0]
+          by_cases h : Spec.insNum x.num at_ n ≤ Spec.maxCol
+          · have h' : ¬ (Spec.insNum x.num at_ n > Spec.maxCol) := by omega
+            simp [insAreaM, insCornerS, insPartS, h, h', Spec.insArea, Spec.startOf, Spec.endOf,
+              Spec.insAxis, Spec.rebuild]
+          · have h' : Spec.insNum x.num at_ n > Spec.maxCol := by omega
+            simp [insAreaM, insCornerS, insPartS, h, h', Spec.insArea, Spec.startOf, Spec.endOf,
+              Spec.insAxis, Spec.rebuild]
         | row =>
-          have := hk y rfl
-          have h' : ¬ (Spec.insNum y.num at_ n > Spec.maxRow) := by omega
-          simp [Spec.insArea, Spec.startOf, Spec.endOf, Spec.insAxis, h', Spec.rebuild, mapArea,
-            insCornerG, axisArgs, insRef_insNum, insNum_n0]
+          by_cases h : Spec.insNum y.num at_ n ≤ Spec.maxRow
+          · have h' : ¬ (Spec.insNum y.num at_ n > Spec.maxRow) := by omega
+            simp [insAreaM, insCornerS, insPartS, h, h', Spec.insArea, Spec.startOf, Spec.endOf,
+              Spec.insAxis, Spec.rebuild]
+          · have h' : Spec.insNum y.num at_ n > Spec.maxRow := by omega
+            simp [insAreaM, insCornerS, insPartS, h, h', Spec.insArea, Spec.startOf, Spec.endOf,
+              Spec.insAxis, Spec.rebuild]
   | two k1 k2 =>
     obtain ⟨c1, r1⟩ := k1
     obtain ⟨c2, r2⟩ := k2
-    have hk1 := hf ⟨c1, r1⟩ (Or.inl rfl)
-    have hk2 := hf ⟨c2, r2⟩ (Or.inr rfl)
     obtain ⟨hs, _, _, _, _⟩ := hw
     cases ax with
     | col =>
       cases c1 with
       | none =>
         cases c2 with
-        | none =>
-          simp [Spec.insArea, Spec.startOf, Spec.endOf, Spec.insAxis, Spec.rebuild, mapArea,
-            insCornerG, axisArgs, map_insRef_zero]
+        | none => simp [insAreaM, insCornerS, Spec.insArea, Spec.startOf, Spec.endOf, Spec.insAxis, Spec.rebuild]
         | some x2 => simp at hs
       | some x1 =>
         cases c2 with
         | none => simp at hs
         | some x2 =>
-          have a1 := hk1 x1 rfl
-          have a2 := hk2 x2 rfl
-          have h1 : ¬ (Spec.insNum x1.num at_ n > Spec.maxCol) := by omega
-          have h2 : min (Spec.insNum x2.num at_ n) Spec.maxCol = Spec.insNum x2.num at_ n := by omega
-          simp [Spec.insArea, Spec.startOf, Spec.endOf, Spec.insAxis, h1, h2, Spec.rebuild, mapArea,
-            insCornerG, axisArgs, insRef_insNum, map_insRef_zero]
+          by_cases h : Spec.insNum x1.num at_ n ≤ Spec.maxCol
+          · have h' : ¬ (Spec.insNum x1.num at_ n > Spec.maxCol) := by omega
+            by_cases h2 : Spec.insNum x2.num at_ n ≤ Spec.maxCol
+            · have hm : min (Spec.insNum x2.num at_ n) Spec.maxCol = Spec.insNum x2.num at_ n := by omega
+              simp [insAreaM, insCornerS, insPartS, h, h', h2, hm, Spec.insArea, Spec.startOf, Spec.endOf,
+                Spec.insAxis, Spec.rebuild]
+            · have hm : min (Spec.insNum x2.num at_ n) Spec.maxCol = Spec.maxCol := by omega
+              simp [insAreaM, insCornerS, insPartS, h, h', h2, hm, Spec.insArea, Spec.startOf, Spec.endOf,
+                Spec.insAxis, Spec.rebuild]
+          · have h' : Spec.insNum x1.num at_ n > Spec.maxCol := by omega
+            simp [insAreaM, insCornerS, insPartS, h, h', Spec.insArea, Spec.startOf, Spec.endOf,
+              Spec.insAxis, Spec.rebuild]
     | row =>
       cases r1 with
       | none =>
         cases r2 with
-        | none =>
-          simp [Spec.insArea, Spec.startOf, Spec.endOf, Spec.insAxis, Spec.rebuild, mapArea,
-            insCornerG, axisArgs, map_insRef_zero]
+        | none => simp [insAreaM, insCornerS, Spec.insArea, Spec.startOf, Spec.endOf, Spec.insAxis, Spec.rebuild]
         | some y2 => simp at hs
       | some y1 =>
         cases r2 with
         | none => simp at hs
         | some y2 =>
-          have a1 := hk1 y1 rfl
-          have a2 := hk2 y2 rfl
-          have h1 : ¬ (Spec.insNum y1.num at_ n > Spec.maxRow) := by omega
-          have h2 : min (Spec.insNum y2.num at_ n) Spec.maxRow = Spec.insNum y2.num at_ n := by omega
-          simp [Spec.insArea, Spec.startOf, Spec.endOf, Spec.insAxis, h1, h2, Spec.rebuild, mapArea,
-            insCornerG, axisArgs, insRef_insNum, map_insRef_zero]
+          by_cases h : Spec.insNum y1.num at_ n ≤ Spec.maxRow
+          · have h' : ¬ (Spec.insNum y1.num at_ n > Spec.maxRow) := by omega
+            by_cases h2 : Spec.insNum y2.num at_ n ≤ Spec.maxRow
+            · have hm : min (Spec.insNum y2.num at_ n) Spec.maxRow = Spec.insNum y2.num at_ n := by omega
+              simp [insAreaM, insCornerS, insPartS, h, h', h2, hm, Spec.insArea, Spec.startOf, Spec.endOf,
+                Spec.insAxis, Spec.rebuild]
+            · have hm : min (Spec.insNum y2.num at_ n) Spec.maxRow = Spec.maxRow := by omega
+              simp [insAreaM, insCornerS, insPartS, h, h', h2, hm, Spec.insArea, Spec.startOf, Spec.endOf,
+                Spec.insAxis, Spec.rebuild]
+          · have h' : Spec.insNum y1.num at_ n > Spec.maxRow := by omega
+            simp [insAreaM, insCornerS, insPartS, h, h', Spec.insArea, Spec.startOf, Spec.endOf,
+              Spec.insAxis, Spec.rebuild]
+
+/-- `adjustment_insert_formula_coordinate` on one reference token against the Spec: the parts at
+    or behind the insertion point move by the number of inserted lines whatever their `$` flags, a
+    reference pushed off the grid becomes `#REF!`, a range pushed partly off is cut at the edge,
+    the qualifier is kept as written, references of other sheets are left alone. -/
+theorem insertTok_ref (r : Spec.CRef) (hw : r.WF) (ax : Spec.Axis) (at_ n : Nat) (hn : n ≠ 0)
+    (ws selfWs : List Char) (hws : ws ≠ []) :
+    insertTok (axisArgs ax at_ n).1 (axisArgs ax at_ n).2.1 (axisArgs ax at_ n).2.2.1
+        (axisArgs ax at_ n).2.2.2 ws selfWs false (refTok r)
+      = .ok (if Spec.concernsRef r selfWs ws then tokOfRef r (Spec.insArea r.area ax at_ n) else refTok r) := by
+  rw [insertTok_ref_corners r hw ax at_ n hn ws selfWs hws, insAreaM_spec r.area hw.1 ax at_ n]
 
 /-! ### remove: one reference token -/
 
@@ -660,13 +749,5 @@ theorem corners_inGrid (a : Spec.Area) (hw : a.WF) (k : Spec.Corner)
     rcases hk with h | h
     · subst h; exact hw.2.1
     · subst h; exact hw.2.2.1
-
-theorem noOverflow_of_wf (a : Spec.Area) (hw : a.WF) (oc orr : Nat) (hoc : oc ≤ 1048576) (hor : orr ≤ 1048576) :
-    NoOverflow a oc orr := by
-  intro k hk
-  have hg := corners_inGrid a hw k hk
-  constructor
-  · intro x hx; have := hg.1 x hx; simp [Spec.maxCol] at this; simp [u32Max]; omega
-  · intro x hx; have := hg.2 x hx; simp [Spec.maxRow] at this; simp [u32Max]; omega
 
 end Umya.Formula
